@@ -134,6 +134,9 @@ pub fn check(bytes: &[u8], ctx: &Ctx) -> Verdict {
     };
     let info = &built.info;
     let params = lib_preset(cfg.params_name, &cfg.params);
+    // scheduling noise at the instrumented points (inside the critical sections of shared
+    // infosets too), different for every case
+    cfr::verif::set_yield_mode(0x5151_7A77 ^ hash_bytes(bytes));
     // production samplers on per-site seeded generators: the run is a function of the case
     let rec = glue::Recorder::new(glue::Mode::Seeded(cfg.sampling_seed));
     let res = catch_unwind(AssertUnwindSafe(|| {
